@@ -13,6 +13,7 @@
 import Yld.Model.Api
 import Yld.Model.Parser
 import Yld.Proofs.Program
+import Yld.Proofs.ClauseOK
 import Std.Data.String.ToNat
 namespace Yld.C01
 
@@ -96,5 +97,22 @@ theorem front_end_bodies_are_source (rb : RBody) (b : Body) (h : bodyOfRaw rb = 
 theorem compiled_program_is_reference (cfg : Cfg) (hsrc : SrcDefs cfg.defs) (f : Nat) (name : String) (args : List Term) :
     query (cfg.withMode .compiled) f name args = query (cfg.withMode .refbody) f name args :=
   program_correct cfg hsrc f name args
+
+/-- **The printed text.** The `def` the compiler prints for a predicate (tie T1 compares it with
+    the real compiler's output), called under the Python semantics of `Yld.Model.Py`, is the
+    engine model's compiled mode for that predicate: same unifications with the arguments, same
+    calls to `query` with the same consumers in the same worlds, same outcome — for every clause
+    list, argument list of the right length, consumer and world. `FrameLocal` says that a callee
+    cannot see its caller's local variables (Python's scoping). -/
+theorem printed_function_is_compiled_predicate (cfg : Cfg) (f : Nat) (p : Pred) (mode : Mode) (args : List Term)
+    (harity : p.arity = args.length) (hsrc : ∀ c ∈ p.clauses, ClauseSrcOK c args.length)
+    (hq : ∀ n a, FrameLocal (query cfg f n a)) (hu : ∀ a b, FrameLocal (unify f a b)) :
+    runDefPyTop cfg (f + 1) (.prolog p mode) args = runDef cfg (f + 1) (.prolog p .compiled) args :=
+  pyTop_def_correct cfg f p mode args harity hsrc hq hu
+
+/-- What `compile_function_body` hands to the code generator: distinct local names, every variable
+    of the clause declared before use, argument positions inside the parameter list. -/
+theorem clause_compiler_output_ok (c : Clause) (n m : Nat) (h : ClauseSrcOK c m) : ClauseOK (compileClause c n).1 m :=
+  compileClause_ok c n m h
 
 end Yld.C01
